@@ -171,6 +171,8 @@ type bitcoinStream struct {
 	evms     [][]byte
 	// genesisValidTax: generate only deposit-tax requests that leave parameters the genesis validation accepts
 	genesisValidTax bool
+	// taxBias: every bridge request list carries a deposit-tax request (profile app-export-tax, known finding F7c)
+	taxBias bool
 }
 
 func init() {
@@ -742,7 +744,7 @@ func (s *bitcoinStream) genBridgeReq(r *tr.Rng) {
 		}
 	}
 	big := []uint64{0, 1, 999, 1000, 1001, 9999, 10000, 10001, 100000000, 100000001, 1<<64 - 1}
-	if r.Chance(25) {
+	if r.Chance(25) || s.taxBias {
 		if s.genesisValidTax {
 			// only pairs the genesis validation accepts (the others are known finding F7c and would mask every later export)
 			pairs := [][2]uint64{{0, 0}, {1, 1}, {999, 100000000}, {9999, 1000}, {1000, 999}, {1, 100000000}, {5000, 1}}
